@@ -266,6 +266,45 @@ def do_quote_contract(ex, st, args, kwargs, node):
         ex.sol.pop()
 
 
+def p_uninit(ex, st, args, kwargs, node):
+    yield VInt(fresh_int("uninit")), st
+
+
+def p_decode_utf8_stateful(ex, st, args, kwargs, node):
+    """PyUnicode_DecodeUTF8Stateful(buffer, n, NULL, &consumed) for n in 1..4 bytes: the same
+    library contract as the incremental decoder (pyvc/lib.py:_utf8_status): a complete well-formed
+    sequence gives the character and consumed == n; a held-back prefix gives '' and consumed == 0;
+    otherwise UnicodeDecodeError"""
+    import ast as _ast
+    from . import lib
+    from .engine import Raised
+    buf, n = args[0], args[1]
+    nc = n.conc() if isinstance(n, VInt) else None
+    if not isinstance(buf, VList) or nc is None or not (1 <= nc <= 4) or nc > len(buf.items):
+        raise Unsupported("PyUnicode_DecodeUTF8Stateful on this buffer / length")
+    out_name = None
+    a3 = node.args[3] if len(node.args) > 3 else None
+    if isinstance(a3, _ast.Call) and a3.args and isinstance(a3.args[0], _ast.Name):
+        out_name = a3.args[0].id
+    if out_name is None:
+        raise Unsupported("PyUnicode_DecodeUTF8Stateful without &consumed")
+    bs = [_code(ex, x) for x in buf.items[:nc]]
+    complete, prefix, cp = lib._utf8_status(bs)
+    for kind, s2 in ex.raise_or_oblige(st, UnicodeDecodeError, z3.Or(complete, prefix), "utf-8-decodable", node):
+        if kind != "ok":
+            yield Raised(VExc(UnicodeDecodeError)), s2
+            continue
+        for b, s3 in ex.branch(s2, complete):
+            if b:
+                r = V.fresh_str(s3.ctx, "dec")
+                s3.ctx.add(r.len() == 1, r.a[0] == V.name_term(s3.ctx, cp, "cp"))
+                s3.env[out_name] = VInt(nc)
+                yield VStr(r.a, 0, 1), s3
+            else:
+                s3.env[out_name] = VInt(0)
+                yield lit(""), s3
+
+
 def install(ex, mod):
     from .engine import Prim
     reg = ex.native_by_id
@@ -280,6 +319,8 @@ def install(ex, mod):
     add("PyUnicode_GET_LENGTH", p_get_length)
     add("PyUnicode_READ", p_read)
     add("PyUnicode_DecodeASCII", p_decode_ascii)
+    add("PyUnicode_DecodeUTF8Stateful", p_decode_utf8_stateful)
+    add("__uninit__", p_uninit)
     ex.c_semantics = True
     install_memory(ex, mod)
     buffer_blk = VObj("Block", {"mem": VConst(fresh_arr("BUFFER")),
